@@ -22,12 +22,12 @@ def emptyToken (legacy : Bool) (hub : Addr) : Token :=
     allowSet := fun _ _ => false, allowAmt := fun _ _ => 0, allowExp := fun _ _ => .never,
     hub := hub, legacy := legacy }
 
-/-- `create_accounts`: cw20-legacy overwrites a repeated address while adding both amounts to the
-    supply; cw20-base 0.16 rejects repeated addresses. -/
+/-- `create_accounts`: cw20-legacy adds up a repeated address (fix 669b1db; it used to overwrite
+    the balance while adding both amounts to the supply); cw20-base 0.16 rejects repeated addresses. -/
 def tokInit (legacy : Bool) (hub : Addr) (balances : List (Addr × Nat)) : Res Token :=
   if !legacy ∧ !(balances.map (·.1)).Nodup then .error "duplicate initial balance addresses"
   else
-    .ok (balances.foldl (fun t x => { (t.setBal x.1 x.2) with supply := t.supply + x.2 })
+    .ok (balances.foldl (fun t x => { (t.setBal x.1 (t.bal x.1 + x.2)) with supply := t.supply + x.2 })
       (emptyToken legacy hub))
 
 def rewardInit (sender hub : Addr) (denom : Denom) (swap : Addr) (swapDenoms : List Denom) : RewardSt :=
